@@ -30,6 +30,10 @@ class C01Box(Monitor):
         onf = int(((arr == self.ctx.lo) | (arr == self.ctx.hi)).any(axis=1).sum())
         if onf:
             self.cov(f"on_face.{where}", onf)
+        if self.ctx.desc.get("use_cache") and self.ctx.desc.get("box", {}).get("cls") == "fullprec":
+            hair = int(((np.abs(arr - self.ctx.lo) <= 1e-12) | (np.abs(self.ctx.hi - arr) <= 1e-12)).any(axis=1).sum())
+            if hair:
+                self.cov(f"within_1e-12_of_a_face_with_result_cache.{where}", hair)
         if not ok.all():
             bad = np.argwhere(~ok)
             i, j = bad[0]
